@@ -278,8 +278,9 @@ def real_model_list(rng, names=None, n_windows=2, full=False, maxside=48):
     res = []
     for name in (names or MODELS.keys()):
         W, H, col, ifs = MODELS[name]
-        wins = [(W, H, 0, 0)] if full else []
-        for _ in range(n_windows - (1 if full else 0)):
+        # full-size pictures are expensive to validate (up to 153 600 cells per comparison): three models only
+        wins = [(W, H, 0, 0)] if full and name in ("gc9107", "st7735s", "st7789") else []
+        for _ in range(n_windows - len(wins)):
             w = rng.randrange(1, min(W, maxside) + 1); h = rng.randrange(1, min(H, maxside) + 1)
             wins.append((w, h, rng.choice([0, W - w, rng.randrange(0, W - w + 1)]), rng.choice([0, H - h, rng.randrange(0, H - h + 1)])))
         res.append((name, W, H, wins))
